@@ -48,7 +48,7 @@ fn real_bytes(m: &Msg) -> Vec<u8> {
     }
 }
 
-fn frame_bytes(f: &Frame) -> Vec<u8> {
+pub fn frame_bytes(f: &Frame) -> Vec<u8> {
     match f {
         Frame::Handshake(m) => m.data(),
         Frame::KeepAlive(m) => m.data(),
